@@ -330,13 +330,30 @@ def oracle_c07(run: Runner, s: core.Stream, pr, r):
                     return
 
 
+def corpus_programs():
+    """minimised programs on which the model and the code once disagreed (or a defect was found): they run first"""
+    import json
+    import os
+    import gen_wild
+    out = []
+    path = os.path.join(core.VERIF, "corpus", "programs.jsonl")
+    if os.path.exists(path):
+        for line in open(path, encoding="utf-8"):
+            if line.strip():
+                j = json.loads(line)
+                files = {"w.tbl": gen_wild.TABLE, "w2.tbl": gen_wild.TABLE2}
+                files.update(j.get("files") or {})
+                out.append({"src": j["src"], "rom": j.get("rom", "low_rom"), "files": files, "bins": {}, "hist": {"corpus": 1}, "usermap": None})
+    return out
+
+
 def wild_stream(run: Runner, prop: str, tier: str, seed: int, oracles=()):
     """shadowing-heavy programs (gen_wild): whole-pipeline correspondence + the given per-node oracles"""
     import gen_wild
     rng = core.rng_for(seed, prop + "-wild")
     s = core.Stream("S4-wild", "shadowing-heavy generated programs (a pool of four names reused for constants, symbols, labels, loop variables, macro and block parameters at every nesting level, defined before and after their uses; mostly unsuffixed operands; macros that expand to nothing, splice a block argument several times or apply other macros inside spliced blocks; .text below its .table; included file) through the real assembler with per-node trace and through the model: same writes block by block, labels in order, outcome class; per-node oracles on the accepted ones; non-trivial = distinct (outcome, constructs used)")
     n = 500 if tier == "quick" else 12000
-    progs = [gen_wild.generate(rng, run.drv) for _ in range(n)]
+    progs = corpus_programs() + [gen_wild.generate(rng, run.drv) for _ in range(n)]
     for pr, r, m in run.run(progs):
         s.cases += 1
         s.count(r["status"] + (":" + str(r.get("exc")) if r["status"] == "rejected" else ""))
